@@ -157,6 +157,14 @@ def build(rng, P, rep, table_mode=False):
             name, op = rng.choice(BIN)
             x, y = rng.choice(of('num')), rng.choice(of('num'))
             form = rng.randrange(3)
+            if name in ('pow', 'lshift', 'mul') and not table_mode:
+                # towers of powers / shifts / products explode (astronomically large integers): outside the operator table
+                # these only take a small constant as their right operand
+                c = rng.choice([0, 1, 2, 3] if name == 'pow' else [0, 1, 2, 5])
+                if sum(x.desc.count(w) for w in (' pow ', ' lshift ', ' mul ')) >= 2:
+                    return      # keep chains of growing operations short
+                add(lambda: op(x.rx, c), lambda: op(x.ev(), c), f'({x.desc} {name} {c})', 'num', 'bin:rx-const', (x,))
+                return
             typ = 'bool' if name in ('lt', 'le', 'gt', 'ge', 'eq', 'ne') else ('any' if name == 'divmod' else 'num')
             if form == 0:
                 add(lambda: op(x.rx, y.rx), lambda: op(x.ev(), y.ev()), f'({x.desc} {name} {y.desc})', typ, 'bin:rx-rx', (x, y))
